@@ -282,16 +282,19 @@ func vQiScenario(maxIn, maxOut int, dataKind int) *qiScenario {
 //  (4) with signature checking on, the Schnorr check ran over the signer's digest with the key
 //      (aggregate) of exactly the inputs' keys and returned true.
 // The scenario space is covered by a family of harnesses (a product of all dimensions explodes):
-//  H-C01-a   plain transfers, 1..2 inputs, 0..2 outputs (quick)
-//  H-C01-a1  plain transfers with the merge rule on, 1..2 inputs, 0..2 outputs (quick)
-//  H-C01-a2  Qi->Quai conversion transactions (22-byte data), 1 input, 0..2 outputs (quick)
-//  H-C01-a3  wrapping transactions (20-byte data), 1 input, 0..2 outputs (quick)
-//  H-C01-a4  signature checking on, 1..2 inputs, 0..1 outputs (quick)
-//  H-C01-a5  arbitrary gas pool / gas used / ETX gas limits, merge rule on, 1 input, 0..2 outputs (quick)
-//  H-C01-a6  malformed data length, 1 input, 0..1 outputs (quick)
-//  H-C01-a7  plain transfers, 1..3 inputs, 0..2 outputs (thorough)
-//  H-C01-a8  conversion transactions, 1..2 inputs, 0..3 outputs (thorough)
-//  H-C01-a9  wrapping transactions with signatures and merge rule, 1..2 inputs, 0..3 outputs (thorough)
+//  H-C01-a    plain transfers, 1..2 inputs, 0..1 outputs (quick)
+//  H-C01-a1   plain transfers with the merge rule on, 1 input, 0..2 outputs (quick)
+//  H-C01-a2   Qi->Quai conversion transactions (22-byte data), 1 input, 0..1 outputs (quick)
+//  H-C01-a3   wrapping transactions (20-byte data), 1 input, 0..1 outputs (quick)
+//  H-C01-a4   signature checking on, 1..2 inputs, no outputs (quick)
+//  H-C01-a5   arbitrary gas pool / gas used / ETX gas limits / fee rates, 1 input, 0..1 outputs (quick)
+//  H-C01-a6   malformed data length, 1 input, 0..1 outputs (quick)
+//  H-C01-a7   plain transfers, 1..2 inputs, 0..2 outputs, merge rule on (thorough)
+//  H-C01-a8   conversion transactions, 1..2 inputs, 0..2 outputs (thorough)
+//  H-C01-a9   wrapping transactions, 1 input, 0..2 outputs (thorough)
+//  H-C01-a10  signature checking, 1..2 inputs, 0..1 outputs (thorough)
+//  H-C01-a11  gas / limit / fee exits, 1 input, 0..2 outputs (thorough)
+//  H-C01-a12  plain transfers, 1..3 inputs, 0..2 outputs (thorough)
 //
 // verif:stub core/rawdb.GetUTXOWithBatch => stubGetUTXOWithBatch
 // verif:stub core/rawdb.GetUTXO => stubGetUTXO
@@ -307,9 +310,9 @@ func vQiScenario(maxIn, maxOut int, dataKind int) *qiScenario {
 // verif:stub consensus/misc.CalculateQuaiReward => stubQuaiRewardCore
 // verif:stub consensus/misc.CalculateQiReward => stubQiRewardCore
 // verif:bounds decisions=600 paths=60000
-func VerifH_C01_a() { qiHarness(2, 2, 0, false, true, false) }
+func VerifH_C01_a() { qiHarness(2, 1, 0, false, true, false) }
 
-// H-C01-a1: ProcessQiTx, plain transfers, 1 input, 0..2 outputs (obligations as H-C01-a).
+// H-C01-a1: ProcessQiTx, plain transfers with the merge rule on, 1 input, 0..2 outputs (obligations as H-C01-a).
 //
 // verif:stub core/rawdb.GetUTXOWithBatch => stubGetUTXOWithBatch
 // verif:stub core/rawdb.GetUTXO => stubGetUTXO
@@ -325,7 +328,7 @@ func VerifH_C01_a() { qiHarness(2, 2, 0, false, true, false) }
 // verif:stub consensus/misc.CalculateQuaiReward => stubQuaiRewardCore
 // verif:stub consensus/misc.CalculateQiReward => stubQiRewardCore
 // verif:bounds decisions=600 paths=60000
-func VerifH_C01_a1() { qiHarness(2, 2, 0, false, false, false) }
+func VerifH_C01_a1() { qiHarness(1, 2, 0, false, false, false) }
 
 // H-C01-a2: ProcessQiTx, Qi->Quai conversion transactions (22-byte data), 1 input, 0..1 outputs (obligations as H-C01-a).
 //
@@ -343,7 +346,7 @@ func VerifH_C01_a1() { qiHarness(2, 2, 0, false, false, false) }
 // verif:stub consensus/misc.CalculateQuaiReward => stubQuaiRewardCore
 // verif:stub consensus/misc.CalculateQiReward => stubQiRewardCore
 // verif:bounds decisions=600 paths=60000
-func VerifH_C01_a2() { qiHarness(1, 2, 2, false, true, false) }
+func VerifH_C01_a2() { qiHarness(1, 1, 2, false, true, false) }
 
 // H-C01-a3: ProcessQiTx, wrapping transactions (20-byte data), 1 input, 0..1 outputs (obligations as H-C01-a).
 //
@@ -361,7 +364,7 @@ func VerifH_C01_a2() { qiHarness(1, 2, 2, false, true, false) }
 // verif:stub consensus/misc.CalculateQuaiReward => stubQuaiRewardCore
 // verif:stub consensus/misc.CalculateQiReward => stubQiRewardCore
 // verif:bounds decisions=600 paths=60000
-func VerifH_C01_a3() { qiHarness(1, 2, 1, false, true, false) }
+func VerifH_C01_a3() { qiHarness(1, 1, 1, false, true, false) }
 
 // H-C01-a4: ProcessQiTx, signature checking on, 1..2 inputs, no outputs (obligations as H-C01-a).
 //
@@ -379,9 +382,9 @@ func VerifH_C01_a3() { qiHarness(1, 2, 1, false, true, false) }
 // verif:stub consensus/misc.CalculateQuaiReward => stubQuaiRewardCore
 // verif:stub consensus/misc.CalculateQiReward => stubQiRewardCore
 // verif:bounds decisions=600 paths=60000
-func VerifH_C01_a4() { qiHarness(2, 1, 0, true, true, false) }
+func VerifH_C01_a4() { qiHarness(2, 0, 0, true, true, false) }
 
-// H-C01-a5: ProcessQiTx, arbitrary gas pool / gas used / ETX gas limits, merge rule on, 1 input, 0..1 outputs (obligations as H-C01-a).
+// H-C01-a5: ProcessQiTx, arbitrary gas pool / gas used / ETX gas limits / fee rates, 1 input, 0..1 outputs (obligations as H-C01-a).
 //
 // verif:stub core/rawdb.GetUTXOWithBatch => stubGetUTXOWithBatch
 // verif:stub core/rawdb.GetUTXO => stubGetUTXO
@@ -397,7 +400,7 @@ func VerifH_C01_a4() { qiHarness(2, 1, 0, true, true, false) }
 // verif:stub consensus/misc.CalculateQuaiReward => stubQuaiRewardCore
 // verif:stub consensus/misc.CalculateQiReward => stubQiRewardCore
 // verif:bounds decisions=600 paths=60000
-func VerifH_C01_a5() { qiHarness(1, 2, 0, false, false, true) }
+func VerifH_C01_a5() { qiHarness(1, 1, 0, false, false, true) }
 
 // H-C01-a6: ProcessQiTx, malformed data length, 1 input, 0..1 outputs (obligations as H-C01-a).
 //
@@ -417,7 +420,7 @@ func VerifH_C01_a5() { qiHarness(1, 2, 0, false, false, true) }
 // verif:bounds decisions=600 paths=60000
 func VerifH_C01_a6() { qiHarness(1, 1, 3, false, true, false) }
 
-// H-C01-a7: ProcessQiTx, plain transfers, 1..2 inputs, 0..2 outputs (obligations as H-C01-a).
+// H-C01-a7: ProcessQiTx, plain transfers, 1..2 inputs, 0..2 outputs, merge rule on (obligations as H-C01-a).
 //
 // verif:stub core/rawdb.GetUTXOWithBatch => stubGetUTXOWithBatch
 // verif:stub core/rawdb.GetUTXO => stubGetUTXO
@@ -434,9 +437,9 @@ func VerifH_C01_a6() { qiHarness(1, 1, 3, false, true, false) }
 // verif:stub consensus/misc.CalculateQiReward => stubQiRewardCore
 // verif:bounds decisions=600 paths=400000 budget=40m
 // verif:tier thorough
-func VerifH_C01_a7() { qiHarness(3, 2, 0, false, true, false) }
+func VerifH_C01_a7() { qiHarness(2, 2, 0, false, false, false) }
 
-// H-C01-a8: ProcessQiTx, conversion transactions, 1 input, 0..2 outputs (obligations as H-C01-a).
+// H-C01-a8: ProcessQiTx, conversion transactions, 1..2 inputs, 0..2 outputs (obligations as H-C01-a).
 //
 // verif:stub core/rawdb.GetUTXOWithBatch => stubGetUTXOWithBatch
 // verif:stub core/rawdb.GetUTXO => stubGetUTXO
@@ -453,7 +456,7 @@ func VerifH_C01_a7() { qiHarness(3, 2, 0, false, true, false) }
 // verif:stub consensus/misc.CalculateQiReward => stubQiRewardCore
 // verif:bounds decisions=600 paths=400000 budget=40m
 // verif:tier thorough
-func VerifH_C01_a8() { qiHarness(2, 3, 2, false, true, false) }
+func VerifH_C01_a8() { qiHarness(2, 2, 2, false, true, false) }
 
 // H-C01-a9: ProcessQiTx, wrapping transactions, 1 input, 0..2 outputs (obligations as H-C01-a).
 //
@@ -472,7 +475,64 @@ func VerifH_C01_a8() { qiHarness(2, 3, 2, false, true, false) }
 // verif:stub consensus/misc.CalculateQiReward => stubQiRewardCore
 // verif:bounds decisions=600 paths=400000 budget=40m
 // verif:tier thorough
-func VerifH_C01_a9() { qiHarness(2, 3, 1, true, false, false) }
+func VerifH_C01_a9() { qiHarness(1, 2, 1, false, true, false) }
+
+// H-C01-a10: ProcessQiTx, signature checking, 1..2 inputs, 0..1 outputs (obligations as H-C01-a).
+//
+// verif:stub core/rawdb.GetUTXOWithBatch => stubGetUTXOWithBatch
+// verif:stub core/rawdb.GetUTXO => stubGetUTXO
+// verif:stub core/rawdb.DeleteUTXO => stubDeleteUTXO
+// verif:stub core/rawdb.CreateUTXO => stubCreateUTXO
+// verif:stub (*core/types.Transaction).Hash => stubTxHash
+// verif:stub core/types.UTXOHash => stubUTXOHash
+// verif:stub crypto.PubkeyBytesToAddress => stubPubkeyBytesToAddress
+// verif:stub github.com/btcsuite/btcd/btcec/v2.ParsePubKey => stubParsePubKey
+// verif:stub github.com/btcsuite/btcd/btcec/v2/schnorr/musig2.AggregateKeys => stubAggregateKeys
+// verif:stub (*github.com/btcsuite/btcd/btcec/v2/schnorr.Signature).Verify => stubSchnorrVerify
+// verif:stub core/types.CalculateIntrinsicQiTxGas => stubIntrinsicQiTxGas
+// verif:stub consensus/misc.CalculateQuaiReward => stubQuaiRewardCore
+// verif:stub consensus/misc.CalculateQiReward => stubQiRewardCore
+// verif:bounds decisions=600 paths=400000 budget=40m
+// verif:tier thorough
+func VerifH_C01_a10() { qiHarness(2, 1, 0, true, true, false) }
+
+// H-C01-a11: ProcessQiTx, gas / limit / fee exits, 1 input, 0..2 outputs (obligations as H-C01-a).
+//
+// verif:stub core/rawdb.GetUTXOWithBatch => stubGetUTXOWithBatch
+// verif:stub core/rawdb.GetUTXO => stubGetUTXO
+// verif:stub core/rawdb.DeleteUTXO => stubDeleteUTXO
+// verif:stub core/rawdb.CreateUTXO => stubCreateUTXO
+// verif:stub (*core/types.Transaction).Hash => stubTxHash
+// verif:stub core/types.UTXOHash => stubUTXOHash
+// verif:stub crypto.PubkeyBytesToAddress => stubPubkeyBytesToAddress
+// verif:stub github.com/btcsuite/btcd/btcec/v2.ParsePubKey => stubParsePubKey
+// verif:stub github.com/btcsuite/btcd/btcec/v2/schnorr/musig2.AggregateKeys => stubAggregateKeys
+// verif:stub (*github.com/btcsuite/btcd/btcec/v2/schnorr.Signature).Verify => stubSchnorrVerify
+// verif:stub core/types.CalculateIntrinsicQiTxGas => stubIntrinsicQiTxGas
+// verif:stub consensus/misc.CalculateQuaiReward => stubQuaiRewardCore
+// verif:stub consensus/misc.CalculateQiReward => stubQiRewardCore
+// verif:bounds decisions=600 paths=400000 budget=40m
+// verif:tier thorough
+func VerifH_C01_a11() { qiHarness(1, 2, 0, false, false, true) }
+
+// H-C01-a12: ProcessQiTx, plain transfers, 1..3 inputs, 0..2 outputs (obligations as H-C01-a).
+//
+// verif:stub core/rawdb.GetUTXOWithBatch => stubGetUTXOWithBatch
+// verif:stub core/rawdb.GetUTXO => stubGetUTXO
+// verif:stub core/rawdb.DeleteUTXO => stubDeleteUTXO
+// verif:stub core/rawdb.CreateUTXO => stubCreateUTXO
+// verif:stub (*core/types.Transaction).Hash => stubTxHash
+// verif:stub core/types.UTXOHash => stubUTXOHash
+// verif:stub crypto.PubkeyBytesToAddress => stubPubkeyBytesToAddress
+// verif:stub github.com/btcsuite/btcd/btcec/v2.ParsePubKey => stubParsePubKey
+// verif:stub github.com/btcsuite/btcd/btcec/v2/schnorr/musig2.AggregateKeys => stubAggregateKeys
+// verif:stub (*github.com/btcsuite/btcd/btcec/v2/schnorr.Signature).Verify => stubSchnorrVerify
+// verif:stub core/types.CalculateIntrinsicQiTxGas => stubIntrinsicQiTxGas
+// verif:stub consensus/misc.CalculateQuaiReward => stubQuaiRewardCore
+// verif:stub consensus/misc.CalculateQiReward => stubQiRewardCore
+// verif:bounds decisions=600 paths=400000 budget=40m
+// verif:tier thorough
+func VerifH_C01_a12() { qiHarness(3, 2, 0, false, true, false) }
 
 func qiHarness(maxIn, maxOut, dataKind int, checkSig, first, symbolicLimits bool) {
 	qiSymbolicFees = symbolicLimits
